@@ -95,10 +95,9 @@ def main(run, args):
     for hc, o in pan:
         src = bytes.fromhex(hc["src"]).decode("utf-8", "replace")
         fid = None
-        if o.get("compile") == "panic" and ("del(" in src) and ("[-" in src):
-            fid = "C04-compile-kind-remove-negative-index"
-        elif o.get("compile") == "panic" and "-9223372036854775808" in src:
-            fid = "C04-compile-kind-index-isize-min"
+        import re
+        if re.search(r"\[\s*-9223372036854775808\s*\][^=\n;]*(=[^=]|,)", src):
+            fid = "C04-compile-insert-isize-min"
         if fid in known:
             run.known(fid, known[fid]["what"])
             continue
